@@ -97,7 +97,7 @@ pub struct World {
     pub strategies: Vec<String>,
     /// image of each database at its last executed snapshot
     pub snap: BTreeMap<String, DbImage>,
-    queued: Vec<(usize, bool)>,
+    pub queued: Vec<(usize, bool)>,
     hist: BTreeMap<(usize, String), KeyHist>,
     pub flags: Flags,
 }
@@ -174,14 +174,25 @@ fn marks(h: Option<&KeyHist>) -> String {
 }
 
 /// executes the queued snapshots (tick or clean shutdown) and records the images
-fn executed(w: &mut World) {
+/// the observable state of every queued database, taken BEFORE the snapshot runs (it is what is being stored)
+fn pre_images(w: &World) -> BTreeMap<String, DbImage> {
+    let node = w.node.as_ref().unwrap();
+    let mut out = BTreeMap::new();
+    for (db, _) in w.queued.iter() {
+        if let Some(img) = image_of(node, DBS[*db]) {
+            out.insert(DBS[*db].to_string(), img);
+        }
+    }
+    out
+}
+
+fn executed(w: &mut World, pre: BTreeMap<String, DbImage>) {
     let queued: Vec<(usize, bool)> = std::mem::take(&mut w.queued);
     // the implementation dedups consecutive equal requests and pops from the back
-    let node = w.node.as_ref().unwrap();
     let mut done = vec![];
     for (db, reclaim) in queued.iter() {
-        if let Some(img) = image_of(node, DBS[*db]) {
-            w.snap.insert(DBS[*db].to_string(), img);
+        if let Some(img) = pre.get(DBS[*db]) {
+            w.snap.insert(DBS[*db].to_string(), img.clone());
             done.push((*db, *reclaim));
         }
     }
@@ -291,100 +302,125 @@ pub fn step(w: &mut World, op: &Op) -> Option<(String, String)> {
             if w.queued.is_empty() {
                 return None;
             }
+            let pre = pre_images(w);
             let node = w.node.as_ref().unwrap();
             let r = catch_unwind(AssertUnwindSafe(|| node.snapshot_tick()));
             if let Err(e) = r {
                 return fail("snapshot-panic", "-", format!("snapshot tick panicked: {} at {}", crate::node::panic_text(e), crate::node::last_panic_loc()));
             }
-            executed(w);
+            executed(w, pre);
         }
         Op::RestartClean | Op::RestartKill => {
-            if *op == Op::RestartClean {
-                let node = w.node.as_ref().unwrap();
-                let r = catch_unwind(AssertUnwindSafe(|| node.shutdown()));
-                if let Err(e) = r {
-                    return fail("shutdown-panic", "-", format!("safe_shutdown panicked: {} at {}", crate::node::panic_text(e), crate::node::last_panic_loc()));
-                }
-                executed(w);
-            } else {
-                w.queued.clear();
+            let all = restart(w, *op == Op::RestartClean);
+            if let Some((what, m, detail)) = all.into_iter().next() {
+                return fail(&what, &m, detail);
             }
-            w.admin.clear();
-            w.node = None; // drop: nothing is buffered in user space between commands
-            let dir = w.dir.clone();
-            let booted = match crate::node::probe_boot(&dir) {
-                Ok(()) => catch_unwind(AssertUnwindSafe(|| Node::boot_single(&dir))),
-                Err(e) => Err(Box::new(e) as Box<dyn std::any::Any + Send>),
-            };
-            let node = match booted {
-                Ok(n) => n,
-                Err(e) => {
-                    // which key history makes the image unreadable? report the union of marks
-                    let mut all: Vec<String> = w.hist.values().map(|h| marks(Some(h))).filter(|m| m != "plain").collect();
-                    all.sort();
-                    all.dedup();
-                    return fail("boot-panic", &all.join(","), format!("restart panicked: {} at {}", crate::node::panic_text(e), crate::node::last_panic_loc()));
+        }
+    }
+    None
+}
+
+/// Restarts the node (clean = safe_shutdown first) and compares every database with the image of its
+/// last executed snapshot. Returns ALL mismatches as (what, key-history marks, detail); empty = fine.
+pub fn restart(w: &mut World, clean: bool) -> Vec<(String, String, String)> {
+    let mut out: Vec<(String, String, String)> = vec![];
+    if clean {
+        let pre = pre_images(w);
+        let node = w.node.as_ref().unwrap();
+        let r = catch_unwind(AssertUnwindSafe(|| node.shutdown()));
+        if let Err(e) = r {
+            out.push(("shutdown-panic".into(), "-".into(), format!("safe_shutdown panicked: {} at {}", crate::node::panic_text(e), crate::node::last_panic_loc())));
+            return out;
+        }
+        executed(w, pre);
+    } else {
+        w.queued.clear();
+    }
+    w.admin.clear();
+    w.node = None; // drop: nothing is buffered in user space between commands
+    let dir = w.dir.clone();
+    let booted = match crate::node::probe_boot(&dir) {
+        Ok(()) => catch_unwind(AssertUnwindSafe(|| Node::boot_single(&dir))),
+        Err(e) => Err(Box::new(e) as Box<dyn std::any::Any + Send>),
+    };
+    let node = match booted {
+        Ok(n) => n,
+        Err(e) => {
+            // which key history makes the image unreadable? report the union of marks
+            let mut all: Vec<String> = w.hist.values().map(|h| marks(Some(h))).filter(|m| m != "plain").collect();
+            all.sort();
+            all.dedup();
+            out.push(("boot-panic".into(), all.join(","), format!("restart panicked: {} at {}", crate::node::panic_text(e), crate::node::last_panic_loc())));
+            return out;
+        }
+    };
+    w.flags.restarts += 1;
+    if w.flags.snapshots >= 2 && w.flags.changed_persisted_between_snapshots {
+        w.flags.nontrivial = true;
+    }
+    // compare every database with its last executed snapshot
+    for (i, _s) in w.strategies.iter().enumerate() {
+        let name = DBS[i];
+        let got = image_of(&node, name);
+        if std::env::var("NV_DEBUG").is_ok() {
+            eprintln!("[c06::restart] {} want={:?} got={:?}", name, w.snap.get(name), got);
+        }
+        match (w.snap.get(name), got) {
+            (None, None) => {}
+            (None, Some(_)) => out.push(("db-never-snapshotted-present".into(), "-".into(), format!("database {} was never snapshotted but exists after restart", name))),
+            (Some(_), None) => out.push(("db-missing".into(), "-".into(), format!("database {} had a completed snapshot but is missing after restart", name))),
+            (Some(want), Some(got)) => {
+                if want.id != got.id {
+                    out.push(("wrong-id".into(), "-".into(), format!("database {}: id {} before, {} after", name, want.id, got.id)));
                 }
-            };
-            w.flags.restarts += 1;
-            if w.flags.snapshots >= 2 && w.flags.changed_persisted_between_snapshots {
-                w.flags.nontrivial = true;
-            }
-            // compare every database with its last executed snapshot
-            for (i, _s) in w.strategies.iter().enumerate() {
-                let name = DBS[i];
-                let got = image_of(&node, name);
-                match (w.snap.get(name), got) {
-                    (None, None) => {}
-                    (None, Some(_)) => return fail("db-never-snapshotted-present", "-", format!("database {} was never snapshotted but exists after restart", name)),
-                    (Some(_), None) => return fail("db-missing", "-", format!("database {} had a completed snapshot but is missing after restart", name)),
-                    (Some(want), Some(got)) => {
-                        if want.id != got.id {
-                            return fail("wrong-id", "-", format!("database {}: id {} before, {} after", name, want.id, got.id));
-                        }
-                        if want.strategy != got.strategy {
-                            return fail("wrong-strategy", "-", format!("database {}: strategy {} before, {} after", name, want.strategy, got.strategy));
-                        }
-                        for (k, (v, ver)) in want.keys.iter() {
-                            let m = marks(w.hist.get(&(i, k.clone())));
-                            match got.keys.get(k) {
-                                None => return fail("missing-key", &m, format!("database {}: key {:?} ({:?}@{}) lost", name, k, short(v), ver)),
-                                Some((gv, gver)) => {
-                                    if gv != v {
-                                        return fail("wrong-value", &m, format!("database {}: key {:?} was {:?}@{}, restored {:?}@{}", name, k, short(v), ver, short(gv), gver));
-                                    }
-                                    if gver != ver {
-                                        return fail("wrong-version", &m, format!("database {}: key {:?} version {} before, {} after", name, k, ver, gver));
-                                    }
-                                }
-                            }
-                        }
-                        for (k, (gv, gver)) in got.keys.iter() {
-                            if !want.keys.contains_key(k) {
-                                let m = marks(w.hist.get(&(i, k.clone())));
-                                return fail("resurrected-key", &m, format!("database {}: key {:?} ({:?}@{}) was not in the snapshot but is back", name, k, short(gv), gver));
+                if want.strategy != got.strategy {
+                    out.push(("wrong-strategy".into(), "-".into(), format!("database {}: strategy {} before, {} after", name, want.strategy, got.strategy)));
+                }
+                for (k, (v, ver)) in want.keys.iter() {
+                    let m = marks(w.hist.get(&(i, k.clone())));
+                    match got.keys.get(k) {
+                        None => out.push(("missing-key".into(), m, format!("database {}: key {:?} ({:?}@{}) lost", name, k, short(v), ver))),
+                        Some((gv, gver)) => {
+                            if gv != v {
+                                out.push(("wrong-value".into(), m, format!("database {}: key {:?} was {:?}@{}, restored {:?}@{}", name, k, short(v), ver, short(gv), gver)));
+                            } else if gver != ver {
+                                out.push(("wrong-version".into(), m, format!("database {}: key {:?} version {} before, {} after", name, k, ver, gver)));
                             }
                         }
                     }
                 }
-            }
-            w.node = Some(node);
-            // databases that vanished are re-created, the per-key marks of vanished databases reset
-            let present: Vec<bool> = (0..w.strategies.len()).map(|i| w.node.as_ref().unwrap().dbs.has_db(DBS[i])).collect();
-            for (i, p) in present.iter().enumerate() {
-                if !*p {
-                    w.hist.retain(|(d, _), _| *d != i);
+                for (k, (gv, gver)) in got.keys.iter() {
+                    if !want.keys.contains_key(k) {
+                        let m = marks(w.hist.get(&(i, k.clone())));
+                        out.push(("resurrected-key".into(), m, format!("database {}: key {:?} ({:?}@{}) was not in the snapshot but is back", name, k, short(gv), gver)));
+                    }
                 }
             }
-            // in-memory marks that no longer hold after a reload: everything loaded is persisted and live
-            for ((d, k), h) in w.hist.iter_mut() {
-                let live = w.snap.get(DBS[*d]).map(|img| img.keys.contains_key(k)).unwrap_or(false);
-                *h = KeyHist { persisted: live, ..Default::default() };
-            }
-            w.connect(false);
         }
     }
-    None
+    w.node = Some(node);
+    // databases that vanished are re-created, the per-key marks of vanished databases reset
+    let present: Vec<bool> = (0..w.strategies.len()).map(|i| w.node.as_ref().unwrap().dbs.has_db(DBS[i])).collect();
+    for (i, p) in present.iter().enumerate() {
+        if !*p {
+            w.hist.retain(|(d, _), _| *d != i);
+        }
+    }
+    // the model continues from what was actually loaded (so that one mismatch is reported once)
+    for (i, _s) in w.strategies.clone().iter().enumerate() {
+        if let Some(img) = image_of(w.node.as_ref().unwrap(), DBS[i]) {
+            if w.snap.contains_key(DBS[i]) {
+                w.snap.insert(DBS[i].to_string(), img);
+            }
+        }
+    }
+    // in-memory marks that no longer hold after a reload: everything loaded is persisted and live
+    for ((d, k), h) in w.hist.iter_mut() {
+        let live = w.snap.get(DBS[*d]).map(|img| img.keys.contains_key(k)).unwrap_or(false);
+        *h = KeyHist { persisted: live, ..Default::default() };
+    }
+    w.connect(false);
+    out
 }
 
 fn short(s: &str) -> String {
